@@ -2,6 +2,7 @@ import JediModel.Proto
 import JediModel.Lemmas.Tree
 import JediModel.Model.Names
 import JediModel.Model.ParsoPos
+import JediModel.Gen.C17
 open Lean Proto JediModel.Text JediModel.Tree JediModel.Names JediModel.ParsoPos
 
 def posJson (p : Pos) : Json := jarr [jnat p.line, jnat p.col]
@@ -35,6 +36,15 @@ def handle (j : Json) : Json :=
     let occs := (arr j "occs").map parseOcc
     jarr ((scriptNames occs (bool j "all") (bool j "defs") (bool j "refs")).map fun o =>
       jarr [jnat o.pos.line, jnat o.pos.col, jchars o.value, jbool o.isDef])
+  | "nameshist" =>
+    -- a history of `_names(flags)` calls on ONE Script; the source of the names as the translator found it
+    let occs := (arr j "occs").map parseOcc
+    let fs : List Flags := (arr j "flags").map fun f =>
+      match asArr f with
+      | [a, d, r] => (asBool a, asBool d, asBool r)
+      | _ => (false, false, false)
+    jarr ((namesHistory ⟨JediModel.Gen.C17.namesSourceMemoised, JediModel.Gen.C17.namesSourceOneShot⟩ occs [] fs).map
+      fun ans => jarr (ans.map fun o => jarr [jnat o.pos.line, jnat o.pos.col, jchars o.value, jbool o.isDef]))
   | "textat" =>
     match textFrom (splitLines (chars j "text")) ⟨nat j "line", nat j "col"⟩ with
     | some s => jchars (s.take (nat j "n"))
